@@ -52,5 +52,5 @@ func TestVerifC12Enum(t *testing.T) {
 	r.Exhaustive(true)
 	r.Note("sequences", spec.total())
 	r.Floor("sync_success", 500)
-	r.Floor("generations_fully_synced_multi_member", int64(r.N(20, 2000)))
+	r.Floor("generations_fully_synced_multi_member", int64(r.N(20, 200)))
 }
